@@ -37,7 +37,7 @@ contract(O + "Destinations.send", props=["C08", "C12", "C07", "C13"], shards=6,
          after_raise={"Dest.__call__#0": [("NEW", "NEW + [Ev('offer', self, message, True, exc)]")]},
          requires=[("current-ok", "cur_ok()"),
                    ("message-private", "ref(message) != ref(self._globalFields) and "
-                    "forall(lambda a: box(message) != a._identification and box(message) != a._successFields, 'ref:obj')")],
+                    "private_dict(message)")],
          modifies=LOGGING_FRAME + ["dict(message)", "field:$uuid_str"],
          loops={0: {"locals": {"NEW": "seqe", "ERRS": "list[sub:Exception]"},
                     "modifies": ["#OFFERS", "#IO", "#NTOP", "seq(ERRS)"],
